@@ -161,7 +161,7 @@ def _filter_excluded(fnode, ev):
                 x = lp.target.id
                 hits = []
 
-                def probe(st, facts, x=x, hits=hits):
+                def probe(st, facts, defs=None, x=x, hits=hits):
                     if isinstance(st, ast.Expr) and isinstance(st.value, ast.Call) and isinstance(st.value.func, ast.Attribute) and st.value.func.attr == "append" \
                             and norm(st.value.func.value) == v.id and st.value.args and norm(st.value.args[0]) == x:
                         hits.append(facts)
